@@ -405,3 +405,38 @@ CHECKS["C34"] = dict(
     outside=["is_rational/is_irrational/is_algebraic/is_transcendental/is_finite/is_even/is_odd/is_polynomial", "rational-valued symbols", "transcendental functions"],
     assumptions=["oracle D2/D4 (vlib/veval.h) over the reals and integers"],
 )
+
+CHECKS["C40"] = dict(
+    src="C40.cpp", level="model_checking",
+    entries=[dict(name="harness_c40_workload", quick={"steps": 1, "leak": 1}, thorough={"steps": 2, "leak": 1, "_wall": 2400})],
+    anchors=["SymEngine::Add::", "SymEngine::parse", "SymEngine::DenseMatrix::det", "SymEngine::expand(", "SymEngine::UIntPoly"],
+    bounds="API programs of 1 (thorough 2) steps over a pool {x, y, symbolic Integer in [-2,2], symbolic Rational n/2}, each step one of 16 operations (add, mul, pow, div, sin, exp, diff, expand, subs, print+parse, polynomial conversion, 2x2 det/inverse, set union/intersection, solve_poly, series, function-symbol derivative + subs) on any two pool members, results printed, hashed and fed to the next step; also the exceptional exits; every memory access checked (bounds, use-after-free, double/invalid free) and all heap objects of the workload freed or reachable from a global at exit",
+    outside=["uninitialised-read detection (the engine tracks definedness only for whole objects)", "serialization, LLVM, threads", "programs longer than 2 steps", "signed-overflow and shift UB are checked only where the harnesses of the other properties assert values"],
+    technique="bounded symbolic execution of LLVM IR of the real code with memory-safety and leak monitors (engine-level assertions on every load/store/free) + SMT (z3)",
+)
+
+CHECKS["C42"] = dict(
+    src="C42.cpp", level="model_checking",
+    entries=[
+        dict(name="harness_c42_binary", quick={}, thorough={}),
+        dict(name="harness_c42_unary", quick={}, thorough={}),
+        dict(name="harness_c42_strings", quick={}, thorough={}),
+        dict(name="harness_c42_containers", quick={"steps": 2}, thorough={"steps": 4}),
+        dict(name="harness_c42_ntheory", quick={}, thorough={}),
+        dict(name="harness_c42_lambda", quick={}, thorough={}),
+    ],
+    anchors=["basic_add", "basic_pow", "rational_set_si", "vecbasic_get", "setbasic_insert", "mapbasicbasic_get", "ntheory_mod", "basic_parse", "integer_set_str", "lambda_real_double_visitor_init"],
+    bounds="operands built through the C constructors (integer_set_si with a symbolic long in [-4,4], rational_set_si with symbolic numerator and denominator incl. 0, symbol_set, real_double_set_d) for all 4x4 kind pairs x 8 binary operations and 31 unary functions, each compared with the C++ function (equal result, or an error code equal to the exception's code exactly when C++ throws); 15 strings through basic_parse and integer_set_str; histories of 2 (4) operations on CVecBasic / CSetBasic / CMapBasicBasic against std::vector / std::set / std::map models with symbolic indices inside the valid range; 9 ntheory functions with symbolic a in [-6,6], b in [-4,4] incl. zero divisors; lambda_real_double_visitor_init on expressions the evaluator refuses; every C call is wrapped so that an escaping C++ exception is an assertion failure; Expression operators + - * / unary - == += *= against add/sub/mul/div/neg/eq",
+    outside=["indices outside the valid range and handles of the wrong type (stated preconditions of the C API, SYMENGINE_ASSERT)", "matrix functions of the C API", "MPFR/MPC/LLVM entry points (not in this build)", "basic_dumps/basic_loads"],
+)
+
+CHECKS["C26"] = dict(
+    src="C26.cpp", level="model_checking",
+    entries=[
+        dict(name="harness_c26_ops", quick={"B": 2}, thorough={"B": 3}),
+        dict(name="harness_c26_trees", quick={"B": 1, "dense_mask": 1}, thorough={"B": 1, "dense_mask": 7, "_wall": 2400}),
+    ],
+    anchors=["SymEngine::matrix_add", "SymEngine::matrix_mul", "SymEngine::hadamard_product", "SymEngine::transpose", "SymEngine::trace", "SymEngine::is_zero(SymEngine::MatrixExpr", "SymEngine::is_symmetric", "SymEngine::is_toeplitz", "SymEngine::size("],
+    bounds="leaves: dense r x c (r, c in {1,2}) with symbolic integer entries |e|<=2 (3), diagonal and identity of size 1..2, zero r x c; one operation from {matrix_add, matrix_mul, hadamard_product, transpose, conjugate_matrix, trace} incl. all dimension mismatches; trees (A op1 B) op2 C and C op2 (A op1 B) over 2x2 leaves |e|<=1 (quick: A dense/diagonal/identity/zero, B and C diagonal/identity/zero; thorough: all three may be dense), n-ary forms; every entry of the result against exact integer arithmetic in the harness; size(); definite answers of is_zero, is_square, is_real, is_toeplitz, is_diagonal, is_symmetric, is_lower, is_upper against the dense matrix",
+    outside=["matrix symbols and symbolic dimensions (no concrete value to compare with)", "matrices larger than 2x2", "complex entries"],
+)
